@@ -15,6 +15,7 @@ import cola
 import translate_c04_rules as TR
 import c04_lattice as LT
 import c04_trace as TC
+import c04_build as CB
 
 TRUSTED_BASE = [
     "Coq 8.16.1 kernel + vm_compute",
@@ -129,7 +130,7 @@ def run_selection(ctx, T):
     mism, ncmp = [], 0
     CH = 250
     jobs = [(f"c19_sel_{i // CH}", coq_chain_file(T, cases[i:i + CH])) for i in range(0, len(cases), CH)]
-    res = LT.coqc_many_consistent(jobs, timeout=600)
+    res = CB.coqc_many(jobs, timeout=600)
     coq_chains = []
     for (name, _), (rc, out) in zip(jobs, res):
         p = parse_chains(out) if rc == 0 else None
@@ -324,7 +325,7 @@ Definition lmax (l : list N) : N := fold_left N.max l 0.
 Eval vm_compute in (map (fun c => let e := fst c in let k := snd c in
   [if ok e then 1 else 0; rows e; cols e; storage e; lmax (allocs e k); lsum (allocs e k); N.of_nat (List.length (allocs e k)); lmax (leafwise e)]) cases).
 """
-    (rc, out), = LT.coqc_many_consistent([("c19_cost", text)], timeout=300)
+    (rc, out), = CB.coqc_many([("c19_cost", text)], timeout=300)
     import re
     flat = " ".join(out.split())
     m = re.search(r"= (\[.*\]) : list \(list N\)", flat)
@@ -633,6 +634,8 @@ def run(ctx):
         # still evaluates) and the absolute bound peak < dense n*n, so that a failing input can be exhibited
         import c04_universe as U0
         U0.load_all()
+        if CB.alt_dir():
+            CB.ensure_alt()
         flags, findings = probe_flags(None)
         try:
             m, n, ex, samples = run_cost(ctx, None, flags)
@@ -643,6 +646,11 @@ def run(ctx):
         return dict(evaluations=n, distinct_nontrivial=n, rule="table-free mode: large structured operators x entry point",
                     samples=samples, mismatches=mismatches + m, findings=findings, extra=extra)
     flags, findings = probe_flags(T)
+    if CB.alt_dir():
+        if not os.path.exists(TR.OUT):
+            TR.main()
+        mismatches += CB.theorem_mismatches("C19")
+        extra["private_build"] = CB.alt_dir()
     # the Coq exception list and the probes must tell the same story: a flag probed absent means the exception is unused
     evaluations = 0
     samples = []
